@@ -90,6 +90,10 @@ class Ctx:
             sub._importing = True
             importlib.import_module(f"sa.props.{other.lower()}").check(sub)
             Ctx._sub_cache[key] = sub
+        if any(r.endswith(".t") for r in rules) and not getattr(sub, "_tables_done", False):
+            from . import tables as _tables
+            _tables.check_registered(sub, other)
+            sub._tables_done = True
         n = 0
         for o in sub.obs:
             base = o.rule.split("/")[0]
